@@ -80,7 +80,7 @@ Proof.
   eexists. split; [reflexivity|]. constructor; [|constructor]. unfold dgram_ok.
   split; [exact Htl|]. split.
   { destruct st; try (unfold SEQ_MOD; lia). destruct Hst as [_ [_ [_ [_ [_ [Ha _]]]]]]. exact Ha. }
-  split; [exact Hsz|]. destruct c; try exact I. destruct Hc as [_ Hn]. clear -Hn.
+  split; [exact Hsz|]. destruct c; try exact I. destruct Hc as [Hl Hn]. split; [|exact Hl]. clear -Hn.
   induction reason as [|b r IH]; [reflexivity|]. cbn [existsb forallb] in *.
   apply orb_false_iff in Hn as [Hb Hr]. rewrite Hb, (IH Hr). reflexivity.
 Qed.
